@@ -8,4 +8,5 @@ CONSTANTS
   RejectTrailing = TRUE
   ValidateFiles = TRUE
   CompressionTransparent = TRUE
+  ZeroCRCCompared = TRUE
 INVARIANTS RestoreAcceptedIsSource
